@@ -100,13 +100,51 @@ def check(ctx):
         t = prog.ann_to_type(fc.module, fc_fields[field][0], fc)
         return prog.classes.get(t[1][1]) if t[0] == 'list' and t[1][0] == 'cls' else None
 
-    # ---- dispatch chain of parse_element ---------------------------------------------------------------------------
-    chain = _class_chain(pe, 'cls')
-    if chain is None or len(chain[0]) < 5:
-        run.error('C05.dispatch', pe.module.name, pe.qualname, 'dispatch chain',
-                  'if/elif chain on the <class> value not recognised (10 branches confirmed)')
+    # ---- dispatch of parse_element, per <class> value ------------------------------------------------------------------
+    # For every tag of the schema the dispatching function is specialised by constant folding (dznverif.specialise): what
+    # remains is what the parser does for an element of that class - whether the source says it with an if / elif chain, a
+    # table of parse functions, a table of records or a table of handler methods.
+    from ..specialise import residual
+    disp, var = pe, 'cls'
+    for m_ in parser.methods.values():
+        for a_ in iter_own_nodes(m_.node):
+            if isinstance(a_, ast.Assign) and len(a_.targets) == 1 and isinstance(a_.targets[0], ast.Name) and \
+                    isinstance(a_.value, ast.Call) and getattr(a_.value.func, 'id', '') == 'get_class_value':
+                disp, var = m_, a_.targets[0].id
+    schema_tags = sorted({CLASS_TAG[c.name] for c in amod.classes.values() if c.name in CLASS_TAG and 'fqn' in c.fields}
+                         | {'file-name', 'import', 'namespace'})
+    literal_tags = set()
+    for x in ast.walk(jmod.tree):
+        if isinstance(x, ast.Constant) and isinstance(x.value, str) and x.value in CLASS_TAG.values():
+            literal_tags.add(x.value)
+    def core(stmts):
+        """the statements for a dict element: the guard on `isinstance(element, dict)` is peeled off"""
+        out = []
+        for st_ in stmts:
+            if isinstance(st_, ast.If) and 'isinstance(element, dict)' in ast.unparse(st_.test):
+                neg = isinstance(st_.test, ast.UnaryOp) and isinstance(st_.test.op, ast.Not)
+                out.extend(core(st_.orelse if neg else st_.body))
+            elif isinstance(st_, ast.Assign) and isinstance(st_.value, ast.Call) and getattr(st_.value.func, 'id', '') == 'get_class_value':
+                continue
+            else:
+                out.append(st_)
+        return out
+
+    branches = []
+    for tag in sorted(set(schema_tags) | literal_tags):
+        body = core(residual(prog, disp, {var: tag}))
+        has_parse = any(isinstance(c, ast.Call) and getattr(c.func, 'id', '').startswith('parse_') for s_ in body for c in ast.walk(s_))
+        if has_parse:
+            branches.append((tag, body, f"<class> '{tag}'"))
+    else_body = residual(prog, disp, {var: '<no such class>'})
+    run.stats['dispatch_function'] = disp.qualname
+    run.stats['dispatch_tags_with_a_parser'] = [t for t, _b, _l in branches]
+    if len(branches) < 5:
+        run.error('C05.dispatch', disp.module.name, disp.qualname, 'dispatch',
+                  f'the dispatch on the <class> value could not be specialised ({len(branches)} of {len(schema_tags)} classes lead '
+                  f'to a parse function)')
         return
-    branches, else_body, outer_if = chain
+    pe_report = disp
     written: Dict[str, List[str]] = {}
     seen_tags: Set[str] = set()
     for tag, body, test in branches:
@@ -206,57 +244,58 @@ def check(ctx):
     if pt is None:
         run.error('C05.dispatch', jmod.name, '-', 'parse_types', 'parse_types vanished')
     else:
-        ch = _class_chain(pt, None)
+        # per nested type class, by specialisation of the loop body (chain or table alike)
         tags = {}
-        recognised = ch is not None
-        if ch is not None:
-            for tag, body, test in ch[0]:
-                calls = [c for s in body for c in ast.walk(s) if isinstance(c, ast.Call) and getattr(c.func, 'id', '').startswith('parse_')]
-                pf = jmod.functions.get(calls[0].func.id) if calls else None
-                tags[tag] = _assert_class_literal(pf) if pf else None
-                apps = [c for s in body for c in ast.walk(s) if isinstance(c, ast.Call) and isinstance(c.func, ast.Attribute) and c.func.attr == 'append']
+        cvar = None
+        for a_ in iter_own_nodes(pt.node):
+            if isinstance(a_, ast.Assign) and len(a_.targets) == 1 and isinstance(a_.targets[0], ast.Name) and \
+                    isinstance(a_.value, ast.Call) and getattr(a_.value.func, 'id', '') == 'get_class_value':
+                cvar = a_.targets[0].id
+        recognised = cvar is not None
+        if recognised:
+            for tag in ('enum', 'subint'):
+                body = residual(prog, pt, {cvar: tag})
+                loops_ = [x for s_ in body for x in ast.walk(s_) if isinstance(x, ast.For)]
+                inner = loops_[0].body if len(loops_) == 1 else []
+                calls = [c for s_ in inner for c in ast.walk(s_) if isinstance(c, ast.Call) and getattr(c.func, 'id', '').startswith('parse_')]
+                pf = jmod.functions.get(calls[0].func.id) if len(calls) == 1 else None
+                if pf is None:
+                    continue
+                tags[tag] = _assert_class_literal(pf)
+                apps = [c for s_ in inner for c in ast.walk(s_) if isinstance(c, ast.Call) and isinstance(c.func, ast.Attribute) and c.func.attr == 'append']
                 ok = tags[tag] == tag and len(apps) == 1
-                run.add('C05.dispatch', pt.module.name, pt.qualname, test, ok,
-                        f"nested type '{tag}' parsed by {pf.name if pf else '?'} and kept once" if ok else
-                        f"nested type '{tag}': parser asserts '{tags[tag]}', appended {len(apps)}x", node=test)
-            for s in ch[1]:
-                for x in ast.walk(s):
+                run.add('C05.dispatch', pt.module.name, pt.qualname, f"nested type '{tag}'", ok,
+                        f"nested type '{tag}' parsed by {pf.name} and kept once" if ok else
+                        f"nested type '{tag}': parser asserts '{tags[tag]}', appended {len(apps)}x")
+            other = residual(prog, pt, {cvar: '<no such class>'})
+            loops_ = [x for s_ in other for x in ast.walk(s_) if isinstance(x, ast.For)]
+            for s_ in (loops_[0].body if len(loops_) == 1 else []):
+                for x in ast.walk(s_):
                     if isinstance(x, (ast.Raise, ast.Return, ast.Break)):
                         run.violation('C05.siblings', pt.module.name, pt.qualname, x,
                                       'an unknown nested type aborts the remaining types of the interface', node=x)
-        else:
-            td = _table_dispatch(jmod, pt)
-            if td is not None:
-                recognised = True
-                table, node = td
-                apps = [c for s in node.body for c in ast.walk(s) if isinstance(c, ast.Call) and isinstance(c.func, ast.Attribute) and c.func.attr == 'append']
-                for tag, fname in table.items():
-                    pf = jmod.functions.get(fname)
-                    tags[tag] = _assert_class_literal(pf) if pf else None
-                    ok = tags[tag] == tag and len(apps) == 1
-                    run.add('C05.dispatch', pt.module.name, pt.qualname, f"table entry '{tag}': {fname}", ok,
-                            f"nested type '{tag}' parsed by {fname} (dispatch table) and kept once" if ok else
-                            f"nested type '{tag}': parser asserts '{tags[tag]}', appended {len(apps)}x", node=node)
-                for s in node.orelse:
-                    for x in ast.walk(s):
-                        if isinstance(x, (ast.Raise, ast.Return, ast.Break)):
-                            run.violation('C05.siblings', pt.module.name, pt.qualname, x,
-                                          'an unknown nested type aborts the remaining types of the interface', node=x)
-        if not recognised:
+        if not recognised or not tags:
             run.error('C05.dispatch', pt.module.name, pt.qualname, 'nested type dispatch',
-                      'the dispatch on the nested type class is neither an if/elif chain on string literals nor a lookup '
-                      'in a module-level table of parse functions: not modelled')
+                      'the dispatch on the nested type class could not be specialised: not modelled')
             tags = {'enum': 'enum', 'subint': 'subint'}
         ok = set(tags) == {'enum', 'subint'}
         run.add('C05.dispatch', pt.module.name, pt.qualname, 'nested type coverage', ok,
                 'enum and subint nested types are parsed' if ok else f'nested types handled: {sorted(tags)}')
 
     # ---- C05.siblings ------------------------------------------------------------------------------------------------------
-    for label, body in (('unknown <class>', else_body), ('non-dict element', outer_if.orelse if outer_if is not None else [])):
-        bad = [x for s in body for x in ast.walk(s) if isinstance(x, (ast.Raise, ast.Return, ast.Break, ast.Continue))]
-        run.add('C05.siblings', pe.module.name, pe.qualname, bad[0] if bad else f'{label} branch', not bad,
+    # an element of an unknown class, or one that is not a dict, is skipped: handling it must not raise (the loops over the
+    # siblings - root elements, namespace members - are in the callers and go on after a plain return)
+    non_dict = []
+    for s_ in else_body:
+        for x in ast.walk(s_):
+            if isinstance(x, ast.If) and 'isinstance(element, dict)' in ast.unparse(x.test):
+                neg = isinstance(x.test, ast.UnaryOp) and isinstance(x.test.op, ast.Not)
+                non_dict.extend(x.body if neg else x.orelse)
+    for label, body in (('unknown <class>', else_body), ('non-dict element', non_dict)):
+        bad = [x for s_ in body for x in ast.walk(s_) if isinstance(x, (ast.Raise, ast.Break))]
+        run.add('C05.siblings', pe.module.name, disp.qualname, bad[0] if bad else f'{label} branch', not bad,
                 f'{label}: skipped without affecting siblings' if not bad else
-                f'{label}: the branch leaves the function/loop - following siblings are lost', node=bad[0] if bad else None)
+                f'{label}: handling it raises / leaves the loop - following siblings are lost', node=bad[0] if bad else None)
     ns_branch = next((b for t, b, _x in branches if t == 'namespace'), None)
     if ns_branch is None:
         run.violation('C05.siblings', pe.module.name, pe.qualname, 'namespace branch', 'namespaces are not descended into')
@@ -335,15 +374,22 @@ def check(ctx):
         if f is None or en is None:
             run.error('C05.enums', jmod.name, fname, fname, f'{fname} / {enum_name} vanished')
             continue
+        # what the decoder returns for each literal, by specialisation (an if chain and a keyword table read the same)
+        from ..specialise import residual
         mapping = {}
-        for s in f.node.body:
-            if isinstance(s, ast.If) and isinstance(s.test, ast.Compare) and isinstance(s.test.ops[0], ast.Eq) and \
-                    isinstance(s.test.comparators[0], ast.Constant) and len(s.body) == 1 and isinstance(s.body[0], ast.Return):
-                sym = prog.resolve_expr_symbol(f.module, s.body[0].value)
-                if isinstance(sym, tuple) and sym[0] == 'enum_member' and sym[1] is en:
-                    mapping[s.test.comparators[0].value] = sym[2]
-        last = f.node.body[-1]
-        raises = isinstance(last, ast.Raise) and 'DznJsonError' in ast.unparse(last.exc)
+        pname = f.params()[0].arg if f.params() else 'value'
+        for mem in en.enum_members:
+            r_ = residual(prog, f, {pname: mem.lower()})
+            r_ = [x for x in r_ if not isinstance(x, ast.Pass)]
+            if len(r_) >= 1 and isinstance(r_[-1], ast.Return) and all(isinstance(x, (ast.Return,)) for x in r_[-1:]):
+                sym = prog.resolve_expr_symbol(f.module, r_[-1].value) if isinstance(r_[-1].value, (ast.Name, ast.Attribute)) else None
+                if isinstance(sym, tuple) and sym[0] == 'enum_member' and sym[1] is en and \
+                        not any(isinstance(y, ast.Raise) for x in r_ for y in ast.walk(x)):
+                    mapping[mem.lower()] = sym[2]
+        other = residual(prog, f, {pname: '<no such direction>'})
+        last = other[-1] if other else None
+        raises = last is not None and any(isinstance(y, ast.Raise) and 'DznJsonError' in ast.unparse(y.exc or ast.Constant(value=''))
+                                          for y in ast.walk(last)) and not any(isinstance(y, ast.Return) for x in other for y in ast.walk(x))
         ok = set(mapping.values()) == set(en.enum_members) and len(set(mapping.values())) == len(mapping) and \
             all(lit.upper() == mem for lit, mem in mapping.items()) and raises
         run.add('C05.enums', f.module.name, f.qualname, f'{fname}: {mapping}', ok,
@@ -392,6 +438,10 @@ def _verbatim_rule(ctx, jmod, amod):
                         ok_callee = (isinstance(sym, ClassInfo) and sym.module is amod) or \
                             (isinstance(sym, FuncInfo) and sym.module is jmod and sym.name.startswith('parse_')) or \
                             (isinstance(p.func, ast.Attribute) and p.func.attr == 'append')
+                        if not ok_callee and sym is None:
+                            # a parse function taken out of a dispatch table
+                            cs = [c_ for c_ in ctx.cg.env(f).resolve_call(p) if isinstance(c_, FuncInfo)]
+                            ok_callee = bool(cs) and all(c_.module is jmod and c_.name.startswith('parse_') for c_ in cs)
                         if ok_callee:
                             return      # from here on it is a declaration (or a validated value object), not the raw value
                         if getattr(p.func, 'id', '') in VERBATIM_OK:
